@@ -69,6 +69,21 @@ def gen_program(rng: random.Random, futures=False, crash=True):
                     segs.append({"acts": acts, "term": term})
                 prog["defs"].append({"ent": e, "kind": k, "gen": gen, "segs": segs, "reuse_list": gen and rng.random() < 0.4})
     prog["end"] = None if rng.random() < 0.35 else rng.choice(sc["ends"])
+    if rng.random() < 0.3 and prog["defs"]:
+        # held events: created before the run, released by a handler mid-run for an instant far in the
+        # future; a later-created event for the same instant must come after them
+        far = max(sc["times"]) * 20 + 1000
+        prog["held"], prog["dummies"] = [], rng.choice([0, 5, 40])
+        for i in range(rng.randint(1, 2)):
+            prog["held"].append({"tgt": rng.randrange(ents), "kind": 70 + i, "time": far + i, "daemon": False})
+            d = rng.choice(prog["defs"])
+            seg = rng.choice(d["segs"])
+            if seg["term"][0] != "W":
+                seg["acts"].append(["RH", i])
+                for _ in range(rng.randint(1, 2)):
+                    seg["acts"].append(["EA", rng.randrange(ents), 70 + i, far + i, False])
+        if prog["end"] is not None:
+            prog["end"] = far * 2
     prog["loop"] = rng.choice(["fast", "slow"])
     prog["times"] = sc["times"]
     return prog
